@@ -1027,7 +1027,8 @@ class Effects:
             return set()
         if dotted in ("len", "int", "float", "str", "bool", "complex", "abs", "min", "max", "sum", "round", "range", "print", "isinstance",
                       "type", "callable", "sorted", "enumerate", "zip", "map", "list", "tuple", "dict", "set", "super", "getattr", "hasattr",
-                      "dir", "any", "all", "repr", "format", "divmod", "pow", "ord", "chr", "iter", "next", "reversed", "filter", "id", "hash"):
+                      "dir", "any", "all", "repr", "format", "divmod", "pow", "ord", "chr", "iter", "next", "reversed", "filter", "id", "hash",
+                      "bytearray", "bytes", "frozenset", "slice", "bin", "hex", "oct", "operator.index", "math.floor", "math.ceil"):
             if dotted in ("list", "tuple", "sorted", "dict", "set", "reversed", "enumerate", "zip", "map", "filter", "iter", "next", "getattr", "max", "min"):
                 # containers keep references to the same element objects
                 return allr if dotted in ("getattr", "next", "iter", "zip", "enumerate", "map", "filter", "reversed") else set()
